@@ -736,6 +736,24 @@ fn run_case(case: &str) -> CaseResult {
                     break;
                 }
             }
+            // entries that tie on the sort key keep the order of the outline listing (note key, line,
+            // text): the sort is documented as stable over Graph::search_paths, and an order of ties
+            // that depends on the sorting algorithm shuffles results between similar queries
+            for i in 1..keyed.len() {
+                if !better(&keyed[i - 1], &keyed[i]) && !better(&keyed[i], &keyed[i - 1]) {
+                    let a = (&res[i - 1].1, res[i - 1].2, &res[i - 1].0);
+                    let b = (&res[i].1, res[i].2, &res[i].0);
+                    if a > b {
+                        fail(
+                            "order",
+                            format!("global_search:{}:ties", if q.is_empty() { "empty-query" } else { "query" }),
+                            &[],
+                            format!("query {:?}: entries {} and {} tie on {:?} but {:?} (note, line, text) is listed before {:?}", q, i - 1, i, keyed[i], a, b),
+                        );
+                        break;
+                    }
+                }
+            }
             // the cut keeps the best: nothing left out may be strictly better than the last entry kept
             if res.len() >= 100 || obs.universe.len() > res.len() {
                 let listed: Vec<&Vec<(String, Option<usize>, String)>> = res.iter().map(|r| &r.4).collect();
@@ -927,7 +945,7 @@ impl Engine for C18 {
             "completeness is demanded of Graph::paths() (and of the empty search where the cap cannot bite), not of the symbol handlers, which filter empty names and cap the depth by design".into(),
             "where a listed path starts is not constrained; only its steps and its elements are".into(),
             "a heading 'includes' a note if a block reference to it stands anywhere in the heading's section (sub-sections included), or in a note so included outside any section".into(),
-            "ties of the documented sort key are a don't-care; references are counted per link (the alphabet has at most one link per paragraph)".into(),
+            "entries that tie on the documented sort key must keep the order of the outline listing (note key, line, text): global_search sorts stably over Graph::search_paths; which of several tied paths survive the cut of 100 follows from that; references are counted per link (the alphabet has at most one link per paragraph)".into(),
             "documentSymbol indentation and symbol kinds are presentation".into(),
         ]
     }
